@@ -103,6 +103,8 @@ func runSolver(ctx context.Context, s solverSpec, file string, timeoutMS, seed i
 		v = "unsat"
 	case first == "sat":
 		v = "sat"
+	case strings.HasPrefix(first, "(error") && !strings.Contains(first, "model is not available"):
+		v = "error"
 	case first == "unknown" || strings.Contains(first, "timeout"):
 		v = "unknown"
 	case cctx.Err() != nil:
@@ -132,6 +134,10 @@ func (g *Gen) solveOne(ob *Obligation, dir string, header string, timeoutMS int,
 	start := time.Now()
 	r := runSolver(context.Background(), solvers[0], files["z3-new"], quick, seed, false)
 	if r.verdict == "unsat" || r.verdict == "sat" {
+		g.finish(ob, r, start)
+		return
+	}
+	if r.verdict == "error" {
 		g.finish(ob, r, start)
 		return
 	}
